@@ -5,6 +5,7 @@ import (
 	"encoding/json"
 	"fmt"
 	"io"
+	"math/rand"
 	"os"
 
 	"github.com/aml-org/amf-custom-validator/pkg/verifhook"
@@ -12,13 +13,23 @@ import (
 
 // oneshot: in THIS fresh process, generate the Rego for every case read from stdin and validate it once
 // (fixed clock); print one line per case with the hashes. Run several times, the lines must be identical.
-func runOneshot(in io.Reader) {
+func runOneshot(in io.Reader, permSeed int64) {
 	dec := json.NewDecoder(in)
+	var cases []caseHead
 	for {
 		var h caseHead
 		if err := dec.Decode(&h); err != nil {
-			return
+			break
 		}
+		cases = append(cases, h)
+	}
+	if permSeed != 0 {
+		// a different history in this process: same calls, other order, every case twice
+		r := rand.New(rand.NewSource(permSeed))
+		cases = append(cases, cases...)
+		r.Shuffle(len(cases), func(a, b int) { cases[a], cases[b] = cases[b], cases[a] })
+	}
+	for _, h := range cases {
 		res := map[string]any{"id": h.Id}
 		func() {
 			defer func() {
@@ -39,6 +50,17 @@ func runOneshot(in io.Reader) {
 		fmt.Println(string(b))
 	}
 	_ = os.Stdout
+}
+
+const coreNS = "http://a.ml/vocabularies/core#"
+
+// two profiles that use the SAME prefix name for different namespaces: one declares it, the other relies on
+// the built-in default
+func prefixPair(i int) []caseHead {
+	data := `[{"@id":"http://ex.org/n/1","@type":["` + NS + `T"],"` + NS + `name":"x"},{"@id":"http://ex.org/n/2","@type":["` + NS + `T"],"` + coreNS + `name":"y"}]`
+	a := fmt.Sprintf("profile: pair_%d_a\nprefixes:\n  ex: %s\n  core: %s\nviolation:\n  - v\nvalidations:\n  v:\n    targetClass: ex.T\n    message: m\n    propertyConstraints:\n      core.name:\n        minCount: 1\n", i, NS, NS)
+	b := fmt.Sprintf("profile: pair_%d_b\nprefixes:\n  ex: %s\nviolation:\n  - v\nvalidations:\n  v:\n    targetClass: ex.T\n    message: m\n    propertyConstraints:\n      core.name:\n        minCount: 1\n", i, NS)
+	return []caseHead{{Op: "c06", Id: 500 + 2*i, Profile: a, Data: data}, {Op: "c06", Id: 501 + 2*i, Profile: b, Data: data}}
 }
 
 // c06 cases: several quantified/nested constraints under ONE propertyConstraints map, each also with
@@ -92,5 +114,10 @@ func genC06(g *G, n int, out io.Writer) {
 		}
 		c := caseHead{Op: "c06", Id: i, Profile: w.b.String(), Data: g.graph(3+g.n(4), 0.7).RenderFlat()}
 		enc.Encode(c)
+	}
+	for i := 0; i < 2; i++ {
+		for _, c := range prefixPair(i) {
+			enc.Encode(c)
+		}
 	}
 }
